@@ -112,6 +112,13 @@ func (C14) Run(t *testing.T, plan *kernel.Plan, keepLog bool) *kernel.Result {
 			w.Res.Cut = false // a session that does not end is what is looked for here
 			w.Violate("C14", "session-terminates", "pg", fmt.Sprintf("session still exchanging bytes after %d deliveries (%d bytes on all streams)", run.Steps, total))
 		}
+		var texts []string
+		for _, st := range script {
+			texts = append(texts, st.SQL)
+		}
+		if rng.Intn(3) == 0 {
+			c14Decoders(w, rng, false, schemaYAML(cols), "version: 0.85.0\nhandlers:\n  - handler: deny\n    tables:\n      - t9\n    patterns:\n      - SELECT %%COLUMN%% FROM t1 %%WHERE%%\n  - handler: allowall\n", texts)
+		}
 		w.State(fmt.Sprintf("faults=%d", len(plan.Faults)))
 		w.Res.SimNanos = int64(time.Since(start))
 	})
